@@ -16,6 +16,9 @@ async fn run(mut s: Sim, mut rng: Rng, _len: usize) -> Sim {
     let mut g: G = bootstrap_with(&mut s, &mut rng, None).await;
     // complete the configuration deterministically (bootstrap deliberately leaves gaps now and then)
     let calc = rng.range(1, 4) as u16; let init = rng.range(1, 4) as u16; let mine = rng.range(1, 2) as u8;
+    // every third history runs with the grace periods at their documented maxima (24 h / 48 h), every third with mid-range values
+    // whose second count exceeds 16 bits: all legal configurations, all must run to completion
+    let (calc, init) = match (s.n >> 32) % 3 { 0 => (1440u16, 2880u16), 1 => (1100, 1200), _ => (calc, init) };
     let r0 = *rng.pick(&[1u32, 50_000_000, 400_000_000, 1_000_000_000]);
     let lim = r0.max(*rng.pick(&[100_000_000u32, 800_000_000, 1_000_000_000]));
     let ti = rng.range(1, 3) as u32; let tl = ti + rng.range(0, 3) as u32;
